@@ -76,6 +76,13 @@ impl St {
 #[derive(Resource, Clone)]
 pub struct ShRes(pub Arc<Shared>);
 
+/// Only the first entity of slot 1 carries it. Ordinary and zero-sized bodies take a `Populated<.., With<Gate>>` parameter:
+/// once that entity is gone the parameter fails Bevy's `validate_param` (which the crate does not consult: the system
+/// must run all the same, with an empty query).
+#[derive(Component)]
+pub struct Gate;
+pub type GateParam<'w, 's> = Populated<'w, 's, Entity, With<Gate>>;
+
 /// Marker on every harness entity; its `on_remove` hook logs the despawn of the entity whatever caused it.
 #[derive(Component)]
 pub struct Tracked;
@@ -185,10 +192,10 @@ fn begin_run(sh: &Arc<Shared>, inst: Inst, ordinal: u32, local: u32, obs: Obs) -
 pub fn make_body_ord(
     inst: Inst,
     sh: Arc<Shared>,
-) -> impl FnMut(Readers, Access, WrAccess, Commands, Local<u32>) + Send + Sync + 'static {
+) -> impl FnMut(Readers, Access, WrAccess, Commands, Local<u32>, GateParam) + Send + Sync + 'static {
     let canary = Canary { inst, sh: sh.clone() };
     let mut ordinal = 0u32;
-    move |mut r: Readers, mut acc: Access, mut wr: WrAccess, mut c: Commands, mut l: Local<u32>| {
+    move |mut r: Readers, mut acc: Access, mut wr: WrAccess, mut c: Commands, mut l: Local<u32>, _gate: GateParam| {
         let _ = &canary;
         ordinal += 1;
         *l += 1;
@@ -248,7 +255,7 @@ pub fn make_body_warn_err(
 /// The zero-sized reactor / system body: a plain `fn` item. All registrations of it share one function type; it finds
 /// out which registration is running from the runner hook (`St::last_target`). Its only state is its `Local`s: the run
 /// counter and a canary created on the first run (dropped with the system state).
-pub fn zst_body(mut r: Readers, mut acc: Access, mut wr: WrAccess, mut c: Commands, mut l: Local<u32>, mut can: Local<Option<Canary>>, shr: Res<ShRes>) {
+pub fn zst_body(mut r: Readers, mut acc: Access, mut wr: WrAccess, mut c: Commands, mut l: Local<u32>, mut can: Local<Option<Canary>>, shr: Res<ShRes>, _gate: GateParam) {
     let sh = shr.0.clone();
     *l += 1;
     let inst = {
@@ -1348,7 +1355,7 @@ pub fn make_world(prog: Arc<Program>, sh: Arc<Shared>) -> Harness {
         });
         // entities
         for slot in 0..NE {
-            let e = w.spawn(Tracked).id();
+            let e = if slot == 1 { w.spawn((Tracked, Gate)).id() } else { w.spawn(Tracked).id() };
             {
                 let mut st = lk(&sh.st);
                 st.ents.push(e);
